@@ -64,6 +64,7 @@ def _reads_handle(node: ast.AST, handle: str) -> List[ast.Call]:
 def run(ctx: Ctx):
     r12_1(ctx)
     r12_2(ctx)
+    r12_2b(ctx)
     r12_3(ctx)
     r12_4(ctx)
     from .c11 import accessor_branches
@@ -277,6 +278,71 @@ def r12_2(ctx: Ctx):
            node=stop[0] if stop else rl.node)
 
 
+def r12_2b(ctx: Ctx, rule="R12.2"):
+    """Counter / cursor discipline: whoever reads records from the underlying file either advances the record counter
+    itself, or re-seeks afterwards (which resets both), or is a private raw reader all of whose callers in the class
+    do.  A public reader that moves the cursor and leaves the counter alone makes the next sequential read and the
+    end-of-records test use a stale counter."""
+    cls = ctx.repo.cls("GroFile")
+    methods = {m.name: m for m in cls.methods.values() if m.parent is None}
+    ADAPT = ("islice", "iter", "map", "enumerate", "zip", "list", "tuple", "filter", "chain")
+
+    def raw_reads(fn: ast.AST):
+        out = []
+        for n in walk_no_nested(fn):
+            if isinstance(n, ast.Call) and isinstance(n.func, ast.Attribute) and attr_chain(n.func.value) == "self._file" \
+                    and n.func.attr in ("readline", "readlines", "read", "__next__"):
+                out.append(n)
+            elif isinstance(n, ast.Call) and call_name(n) == "next" and n.args and attr_chain(n.args[0]) == "self._file":
+                out.append(n)
+            elif isinstance(n, (ast.For, ast.comprehension)) and (attr_chain(n.iter) == "self._file" or (
+                    isinstance(n.iter, ast.Call) and call_name(n.iter) in ADAPT and any(attr_chain(a_) == "self._file" for a_ in n.iter.args))):
+                out.append(n.iter)
+        return out
+
+    def maintains(f: Func, reads) -> bool:
+        first = min(getattr(r_, "lineno", 0) for r_ in reads)
+        for n in walk_no_nested(f.node):
+            if isinstance(n, (ast.Assign, ast.AugAssign)):
+                tg = n.targets[0] if isinstance(n, ast.Assign) else n.target
+                if attr_chain(tg) == "self._current_atom":
+                    return True
+            if isinstance(n, ast.Call) and call_name(n) == "seek_atom" and getattr(n, "lineno", 0) >= first:
+                return True
+        return False
+
+    def callers(name: str):
+        return [m for m in methods.values() if any(isinstance(c, ast.Call) and isinstance(c.func, ast.Attribute) and norm(c.func.value) == "self"
+                                                   and c.func.attr == name for c in ast.walk(m.node))]
+    raw = {nm: raw_reads(m.node) for nm, m in methods.items()}
+    raw = {nm: r_ for nm, r_ in raw.items() if r_}
+    n_sites = 0
+    for nm, reads in sorted(raw.items()):
+        f = methods[nm]
+        n_sites += 1
+        def disciplined(g: Func, rds, stack):
+            """(ok, why): g keeps counter and cursor together around these reads, or all its callers do"""
+            if maintains(g, rds):
+                return True, ""
+            public = not g.name.startswith("_") or (g.name.startswith("__") and g.name.endswith("__"))
+            cs = [c for c in callers(g.name) if c.name not in stack]
+            if public or not cs or len(stack) > 4:
+                return False, "`%s` reads records from the file and neither advances the record counter nor re-seeks; it can be " \
+                    "called from outside%s" % (g.name, "" if g.name == nm else " (reaches the raw read in `%s`)" % nm)
+            for c in cs:
+                sites = [x for x in ast.walk(c.node) if isinstance(x, ast.Call) and isinstance(x.func, ast.Attribute)
+                         and norm(x.func.value) == "self" and x.func.attr == g.name]
+                o_, w_ = disciplined(c, sites, stack + (c.name,))
+                if not o_:
+                    return False, w_
+            return True, ""
+        ok, why = disciplined(f, reads, (nm,))
+        ctx.ob(rule, f, "raw reads of the underlying file in %s: %s" % (nm, [norm(r_)[:50] for r_ in reads]), ok,
+               "every reader of the underlying file keeps the record counter in step with the cursor (advances it, or re-seeks "
+               "afterwards), directly or in all of its callers" + ("" if ok else " -- " + why), node=reads[0])
+    ctx.floor(rule, n_sites, 1, "methods of GroFile reading the underlying file")
+
+
 def r12_3(ctx: Ctx):
     gen = ctx.func("SystemGro._molecules_ordered_all_gen")
     enc = ctx.func("SystemGro._add_residue_init")
@@ -386,6 +452,12 @@ def r12_3(ctx: Ctx):
         outs = [n for n in walk_no_nested(dec.node) if isinstance(n, (ast.YieldFrom, ast.Return)) and n.value is not None
                 and any(x is zips[0] for x in ast.walk(n.value))]
         others = [n for n in walk_no_nested(dec.node) if isinstance(n, (ast.Yield, ast.YieldFrom, ast.Return)) and n not in outs]
+        fl = [n for n in walk_no_nested(dec.node) if isinstance(n, ast.For) and n.iter is zips[0] and isinstance(n.target, ast.Name)
+              and len(n.body) == 1 and isinstance(n.body[0], ast.Expr) and isinstance(n.body[0].value, ast.Yield)
+              and norm(n.body[0].value.value) == n.target.id]
+        if fl and not outs:
+            outs = [ast.Return(zips[0])]
+            others = [n for n in others if n is not fl[0].body[0].value]
         ctx.ob("R12.3", dec, zips[0], okz and len(outs) == 1 and outs[0].value is zips[0] and not others,
                "the decoder pairs the even positions (kinds) with the odd positions (counts) of the list", node=zips[0])
     elif rng:
